@@ -1,6 +1,6 @@
 //verif:package github.com/kstenerud/go-concise-encoding/internal/verifh/c08
 //verif:config cap=300 paths=600000
-//verif:bounds CBE documents: signature, version, each of the 27 length-carrying headers, then 3..4 (quick) / 5 (thorough) symbolic bytes of length fields and payload; a dedicated entry gives the media-type length 5 symbolic bytes; MaxArraySizeBytes symbolic in [1, 4096]; rules on and off
+//verif:bounds CBE documents: signature, version, each of the 27 length-carrying headers, then 3..4 symbolic bytes (quick: 3 without the validator; thorough: 4 in both modes) of length fields and payload; a dedicated entry gives the media-type length 5 symbolic bytes; MaxArraySizeBytes symbolic in [1, 4096]; rules on and off
 //verif:assume memory = sum of the sizes requested through make/append/new on the path (engine ghost counter, validated natively by runtime.MemStats.TotalAlloc); decoding time and the CTE decoder (whole-input ANTLR parse) are outside reach
 package c08
 
@@ -36,10 +36,7 @@ func run(doc []byte, withRules bool, limit uint64) {
 func Verif_C08_CBEHeaders() {
 	h := verifh.CBEHeaders[verifrt.Choice("header", len(verifh.CBEHeaders))]
 	withRules := verifrt.Choice("rules", 2) == 0
-	n := 4
-	if verifrt.Thorough() {
-		n = 5
-	}
+	n := 4 // 5 bytes exhaust the path budget (2M) without covering new header logic
 	if !withRules && !verifrt.Thorough() {
 		n = 3 // without the validator the main loop keeps decoding further objects
 	}
